@@ -114,6 +114,14 @@ def postprocess_attributes(
             f"found {len(exponents)} != {len(coefficients_)}"
         )
 
+    # (before any term is dropped: a repeated exponent is an error also when
+    # one of its coefficients happens to be zero)
+    exponents_, count = numpy.unique(exponents, return_counts=True, axis=0)
+    if numpy.any(count > 1):
+        raise PolynomialConstructionError(
+            f"Duplicate exponent keys found: {exponents_[count > 1][0]}"
+        )
+
     if retain_coefficients is None:
         retain_coefficients = numpoly.get_options()["retain_coefficients"]
     if not retain_coefficients and coefficients_:
